@@ -7,12 +7,14 @@ SPEC = {
     ],
     "rule": ("rapid-generated ammo models (internal/ammogen: four formats, all layout knobs, in-file directives) x provider `headers` "
              "lists whose names overlap / do not overlap the entries' headers (incl. Host) x ssl on/off x disable-keep-alives x 1-4 "
-             "instances x 1-2 passes; the pool (http gun, provider, discard aggregator, once profiles) is built from a config map by "
+             "instances x 1-2 passes x target answers {2 bytes, empty, 5 kB, 100 kB, chunked/streamed small and 12 kB}; header values may be "
+             "empty (the ammo then defines the header with nothing in it); the pool (http gun, provider, discard aggregator, once profiles) is built from a config map by "
              "config.DecodeAndValidate and run by the real engine against in-process recording HTTP and HTTPS servers. Non-trivial = "
              "a configured header name also defined by an entry, or Host given by the ammo, or >= 2 instances; distinct = hash of the case."),
     "floors": {"TestWire/config_header_overlaps_ammo": 0.2, "TestWire/overlap_uri": 0.03, "TestWire/overlap_uripost": 0.03,
                "TestWire/overlap_raw": 0.03, "TestWire/overlap_jsonline": 0.03, "TestWire/ssl": 0.3, "TestWire/keep_alive_off": 0.1,
-               "TestWire/host_from_ammo": 0.2, "TestWire/instances_ge_2": 0.4},
+               "TestWire/host_from_ammo": 0.2, "TestWire/instances_ge_2": 0.4,
+               "TestWire/keep_alive_with_multi_read_answer": 0.25},
     "manifest": {
         "technique": "model-based property testing (rapid): generated ammo + gun config run through the real engine against a recording target; multiset/sequence comparison with the model",
         "text": ("The multiset of requests the target received must equal the model: method, request URI, body, every ammo header, a "
